@@ -32,7 +32,8 @@ Finished(run) == ~run.stopped /\ "panic" \notin DOMAIN run
 RunVerdict(e, run) ==
     IF ~Finished(run) THEN {"Inv_C14_Terminates"}
     ELSE LET c == CfgOf(e, run)  V == VOf(e)  J == JOf(e) IN
-         (IF PostOne(c) THEN {} ELSE {"Inv_C14_One"})
+         \* every variable of the state - those the unifier allocated included - is known to the resulting forest
+         (IF PostOne(c) /\ Len(run.unknown) = 0 THEN {} ELSE {"Inv_C14_One"})
          \cup (IF PostEq(c, J) THEN {} ELSE {"Inv_C14_Eq"})
          \cup (IF PackedFree(e) /\ ~PostComponents(c, V, J) THEN {"Inv_C14_Components"} ELSE {})
          \cup (IF PackedFree(e) /\ PostOne(c) /\ ~PostJoin(c, V, J) THEN {"Inv_C15_Join"} ELSE {})
